@@ -10,32 +10,32 @@
 (* token index and the failing clause and moves on to the next trace, so   *)
 (* one TLC run yields a verdict for every trace.                           *)
 (***************************************************************************)
-EXTENDS TokenStream, Json
+EXTENDS TokenStream, Json, IOUtils
 
 Traces == JsonDeserialize("traces.json")
 NT == Len(Traces)
 
-VARIABLES tid, k, st, ptab, nacc, nrej
-vars == <<tid, k, st, ptab, nacc, nrej>>
+VARIABLES tid, k, st, nacc, nrej
+vars == <<tid, k, st, nacc, nrej>>
 
-TableFor(i) == IF i <= NT THEN PosTable(Traces[i].inp) ELSE <<>>
+W == IF "shards" \in DOMAIN IOEnv THEN atoi(IOEnv.shards) ELSE 1
 
-Init == /\ tid = 1 /\ k = 1 /\ st = InitSt /\ ptab = TableFor(1)
+Init == /\ tid \in 1..W /\ k = 1 /\ st = InitSt
         /\ nacc = 0 /\ nrej = 0
 
-NextTrace == /\ tid' = tid + 1 /\ k' = 1 /\ st' = InitSt /\ ptab' = TableFor(tid + 1)
+NextTrace == /\ tid' = tid + W /\ k' = 1 /\ st' = InitSt
 
 Tr == Traces[tid]
 
 Emit ==
   /\ tid <= NT /\ k <= Len(Tr.toks)
-  /\ Clause(Tr.inp, ptab, st, Tr.toks[k]) = "ok"
+  /\ Clause(Tr.inp, st, Tr.toks[k]) = "ok"
   /\ st' = After(st, Tr.toks[k]) /\ k' = k + 1
-  /\ UNCHANGED <<tid, ptab, nacc, nrej>>
+  /\ UNCHANGED <<tid, nacc, nrej>>
 
 Reject ==
   /\ tid <= NT /\ k <= Len(Tr.toks)
-  /\ LET c == Clause(Tr.inp, ptab, st, Tr.toks[k]) IN
+  /\ LET c == Clause(Tr.inp, st, Tr.toks[k]) IN
        /\ c # "ok"
        /\ PrintT(<<"REJECT", Tr.id, k, c>>)
   /\ NextTrace /\ nrej' = nrej + 1 /\ nacc' = nacc
@@ -48,10 +48,35 @@ End ==
   /\ NextTrace
 
 Finish ==
-  /\ tid = NT + 1
+  /\ tid > NT /\ tid <= NT + W
   /\ PrintT(<<"SUMMARY", nacc, nrej>>)
-  /\ tid' = NT + 2 /\ UNCHANGED <<k, st, ptab, nacc, nrej>>
+  /\ tid' = tid + W /\ UNCHANGED <<k, st, nacc, nrej>>
+
+(* The same verdict in one step per trace (used for large batches: the      *)
+(* per-state overhead of TLC dominates otherwise).  RunTrace folds exactly  *)
+(* the Clause/After operators the token-by-token actions above use.         *)
+RunTrace(tr) ==
+  LET F[j \in 0..Len(tr.toks)] ==
+        IF j = 0 THEN [st |-> InitSt, bad |-> "ok", at |-> 0]
+        ELSE LET p == F[j - 1] IN
+             IF p.bad # "ok" THEN p
+             ELSE LET c == Clause(tr.inp, p.st, tr.toks[j]) IN
+                  IF c = "ok" THEN [st |-> After(p.st, tr.toks[j]), bad |-> "ok", at |-> 0]
+                  ELSE [st |-> p.st, bad |-> c, at |-> j]
+      r == F[Len(tr.toks)]
+  IN IF r.bad # "ok" THEN <<r.bad, r.at>>
+     ELSE IF tr.raised THEN <<"NeverFails:raised", Len(tr.toks) + 1>>
+     ELSE <<EndClause(r.st), Len(tr.toks) + 1>>
+
+Whole ==
+  /\ tid <= NT /\ k = 1
+  /\ LET v == RunTrace(Tr) IN
+       IF v[1] = "ok" THEN nacc' = nacc + 1 /\ nrej' = nrej
+       ELSE PrintT(<<"REJECT", Tr.id, v[2], v[1]>>) /\ nrej' = nrej + 1 /\ nacc' = nacc
+  /\ NextTrace
 
 Next == Emit \/ Reject \/ End \/ Finish
 Spec == Init /\ [][Next]_vars
+NextWhole == Whole \/ Finish
+SpecWhole == Init /\ [][NextWhole]_vars
 =============================================================================
